@@ -79,6 +79,18 @@ def run(v, tier, seed, name="replay"):
     # the numbering of the events taken over (hence the order of exploration, the traces, the collected states) is determined
     from . import snap_suite
     sim_scen += [(f"sn{i}", [l for l in snap_suite.gen_snapshot_scenario(rng, walk=0) if l != "refenum"]) for i in range(max(60, nsim // 10))]
+    def hub(i):
+        # one message in flight to each of 4–6 other nodes when the checker is created: the events taken over are numbered in one
+        # definite order, whatever order the node table is iterated in
+        k = rng.randint(4, 6)
+        seed = rng.randrange(12)
+        ls = [f"seed {seed}", f"draws {sim_suite.draws_for(seed)}"] + [f"node n{j}" for j in range(k + 1)] + [f"proc p{j} n{j}" for j in range(k + 1)]
+        ls.append("rule p0 0 L:m0 1 " + " ".join(f"S:m1:=x{j}:p{j}" for j in range(1, k + 1)))
+        ls += [f"rule p{j} 0 M:m1 1 L:m2:$" for j in range(1, k + 1)]
+        ls += [f"net delays {rng.choice([1, 2])} {rng.choice([3, 4])}", "local p0 m0 =go",
+               f"mc run {rng.choice(['dfs', 'bfs'])} full inv=none goal=noev prune=dgt:2 collect=dgt:1", "steps 3", "obs"]
+        return ls
+    sim_scen += [(f"hb{i}", hub(i)) for i in range(max(12, nsim // 20))]
     sim_scen += [(f"rg{i}", with_rand(sim_suite.gen_scenario(rng, dict(procs=(2, 4), p_rand=0.3, p_crash=0.3)))) for i in range(max(30, nsim // 10))]
     nviol = 0
     nontriv = set()
